@@ -18,6 +18,7 @@ import (
 	"os"
 	exec_ "os/exec"
 	"runtime"
+	"runtime/pprof"
 	"sort"
 	"strings"
 	"sync"
@@ -180,7 +181,8 @@ func planStrings(plan []Point) []string {
 }
 
 // explore runs the fault-free execution of one scenario and every placement of <= k faults.
-func explore(sc *Scenario, k int, wantSample bool) *scenResult {
+func explore(sc *Scenario, wantSample bool) *scenResult {
+	k := sc.K
 	sr := &scenResult{Idx: sc.Idx, Outcomes: map[string]int{}}
 	chain := buildChain(sc)
 	base := execute(sc, nil)
@@ -263,14 +265,22 @@ func explore(sc *Scenario, k int, wantSample bool) *scenResult {
 }
 
 func boundsFor(thorough bool) bounds {
-	b := bounds{chainLens: []uint64{6, 8}, follows: []uint64{0, 2}, batches: []uint64{1, 2, 5}, scheds: schedOrder,
-		nodeLens: []uint64{6}, nodeScheds: []string{"every"}, k: 2}
+	b := bounds{chains: []chainSpec{{6, 3, 2}, {8, 2, 2}}, follows: []uint64{0, 2}, batches: []uint64{1, 2, 5}, scheds: schedOrder,
+		nodeChains: []chainSpec{{6, 2, 2}}, nodeScheds: []string{"every"}}
 	if thorough {
-		b = bounds{chainLens: []uint64{6, 7, 8, 9, 10}, follows: []uint64{0, 2}, batches: []uint64{1, 2, 5}, scheds: schedOrder,
-			nodeLens: []uint64{6, 8}, nodeScheds: []string{"every", "skip3"}, k: 3}
+		// depth (3 faults) on the short chains, breadth (every distribution on chains up to 10) with 2
+		b = bounds{chains: []chainSpec{{6, 3, 3}, {7, 3, 3}, {8, 3, 2}, {9, 3, 2}, {10, 3, 2}}, follows: []uint64{0, 2}, batches: []uint64{1, 2, 5}, scheds: schedOrder,
+			nodeChains: []chainSpec{{6, 3, 3}, {8, 2, 2}}, nodeScheds: []string{"every", "skip3"}}
 	}
 	if v := os.Getenv("C13_K"); v != "" { // development aid
-		fmt.Sscan(v, &b.k)
+		k := 0
+		fmt.Sscan(v, &k)
+		for i := range b.chains {
+			b.chains[i].K = k
+		}
+		for i := range b.nodeChains {
+			b.nodeChains[i].K = k
+		}
 	}
 	return b
 }
@@ -298,20 +308,35 @@ var busy atomic.Bool
 // stdin one per line, one JSON result per line goes to stdout. One P per worker process: the
 // hand-overs between the client's goroutines and the harness stay on one thread, and the 256 KiB
 // channel buffer that fetchLogsInBatches allocates per fetch stays in that core's cache.
+// ballast raises the heap goal so that the runtime's background scavenger does not hand the
+// 256 KiB channel buffers of fetchLogsInBatches back to the OS after every collection (measured:
+// half of the CPU time was madvise); it is never read or written.
+var ballast []byte
+
 func worker(spec string) {
+	mb := 24
+	if v := os.Getenv("C13_BALLAST"); v != "" { // development aid
+		fmt.Sscan(v, &mb)
+	}
+	ballast = make([]byte, mb<<20)
 	var tier string
 	var sampleEvery int
 	fmt.Sscan(spec, &tier, &sampleEvery)
 	b := boundsFor(tier == "thorough")
 	scens := generate(b)
 	go watchdog()
+	if pf := os.Getenv("C13_CPUPROFILE"); pf != "" { // development aid
+		f, _ := os.Create(pf)
+		pprof.StartCPUProfile(f)
+		defer pprof.StopCPUProfile()
+	}
 	in := bufio.NewScanner(os.Stdin)
 	out := bufio.NewWriter(os.Stdout)
 	for in.Scan() {
 		var idx int
 		fmt.Sscan(in.Text(), &idx)
 		busy.Store(true)
-		sr := explore(scens[idx], b.k, idx%sampleEvery == 0)
+		sr := explore(scens[idx], idx%sampleEvery == 0)
 		busy.Store(false)
 		j, _ := json.Marshal(sr)
 		out.Write(j)
@@ -439,12 +464,13 @@ func main() {
 	if done < total {
 		r.CapHit(fmt.Sprintf("deadline: %d of %d scenarios explored", done, total))
 	}
-	r.Set("rule", fmt.Sprintf("per scenario: the fault-free run, then every placement of <= %d faults (FilterLogs/SubscribeNewHead/reconnect-dial/BlockNumber call fails; subscription error in place of the next head) at points the execution actually passes, each placement once", b.k))
-	r.Set("bounds", map[string]interface{}{"max_faults": b.k, "chain_lengths": b.chainLens, "log_distributions": "every multiset of <= 3 log-carrying transactions over the blocks, kinds N/R/T2/T16 by profile",
-		"all_kind_profiles": b.allProfiles, "follow_distances": b.follows, "batch_sizes": b.batches, "head_schedules": b.scheds, "from_block": fromBlock,
-		"node_mode_chain_lengths": b.nodeLens, "node_mode_schedules": b.nodeScheds, "node_mode_tip_at_history": "2, n/2, n-1"})
+	r.Set("rule", "per scenario: the fault-free run, then every placement of <= max_faults faults (FilterLogs/SubscribeNewHead/reconnect-dial/BlockNumber call fails; subscription error in place of the next head) at points the execution actually passes, each placement once; max_faults per chain length as listed in bounds")
+	r.Set("bounds", map[string]interface{}{"chains": b.chains,
+		"log_distributions": "every multiset of <= max_log_txs log-carrying transactions over the blocks 1..n; transaction kinds N (1 log) / R (removed log) / T2 (2 logs in one tx) / T16 (16 logs in one tx), kind profile rotating with the distribution index",
+		"follow_distances": b.follows, "batch_sizes": b.batches, "head_schedules": b.scheds, "from_block": fromBlock,
+		"node_mode_chains": b.nodeChains, "node_mode_schedules": b.nodeScheds, "node_mode_tip_at_history_sync": "2, n/2, n-1"})
 	r.Set("scenarios", map[string]interface{}{"total": total, "explored": done, "by_mode": perMode})
-	r.Set("placements_by_number_of_faults", byDepth[:b.k+1])
+	r.Set("placements_by_number_of_faults", byDepth[:])
 	r.Set("max_injectable_points_in_one_run", maxPoints)
 	r.Set("distinct_outcomes", len(outcomes))
 	r.Set("outcome_histogram", outcomes)
